@@ -265,6 +265,7 @@ func TestMC_C12(t *testing.T) {
 // TestMCRace_C12 is the separate free-running pass (run with -race): the same
 // bodies without the explorer. Reported separately; not part of the exhaustive claim.
 func TestMCRace_C12(t *testing.T) {
+	defer fmt.Println("VERIF-RACE property=C12 iterations=300 bodies=4")
 	f := c12NewFixture()
 	for it := 0; it < 300; it++ {
 		n := CosiCommitNonce(bytes.NewReader(f.seed))
